@@ -24,7 +24,9 @@ from props import c05_tlsmsg
 
 GENERATORS = ["c05_tables", "c05_tls"]
 DEPENDS = ["Frames", "ConnRecv", "FramesP", "ConnRecvP", "C05Tables(gen)", "StreamRecv", "RangeSet", "Base", "Tok", "C05",
-           "TlsParse", "TlsRecv", "TlsParseP", "TlsRecvP", "TlsSitesP", "C05Tls(gen)", "TlsDispatch(gen)", "Codec", "TlsCodec"]
+           "TlsParse", "TlsRecv", "TlsParseP", "TlsRecvP", "TlsSitesP", "C05Tls(gen)", "TlsDispatch(gen)", "Codec", "TlsCodec",
+           "ConnDgram", "ConnDgramP", "ConnClose", "ConnCloseP", "AfterCloseP", "Header", "HeaderProofs", "Varint", "Builder",
+           "BuilderProofs", "C13Consts(gen)", "Timers", "TimersSpec", "TimersP"]
 TRUSTED_BASE = [
     "extraction (ExtrOcamlBasic only; Z kept inductive) + coq/extract/driver.ml for running the model",
     "tools/gen/c05_tables.py (ast reader of __frame_handlers / enums; output is compared with the running "
@@ -52,7 +54,12 @@ ASSUMPTIONS = [
     "private key can sign with the negotiated algorithm, application callbacks (session ticket fetcher / handler) return",
     "receive_total_tls: tls_ok (c_tls st) = wf_cfg + wf0 of the connection's tls.Context (the hypotheses of tls_handle_message_total; "
     "re-established by the theorem itself for the state after the packet); no hypothesis about the TLS engine's answers is left",
-    "AEAD/header protection are outside: the model starts from the decrypted payload (C02)",
+    "AEAD/header protection are outside (C02): decrypt_packet is an oracle per packet answering KeyUnavailableError / CryptoError / ANY plaintext; "
+    "receive_datagram_total quantifies over all answers",
+    "receive_datagram_total: dconn_ok = tls_ok + (_initialize() has run, or server in FIRSTFLIGHT) + (no _close_event while the gate is open): "
+    "Example dconn_ok_example; a client must have called connect() (API discipline, as in C09's first_op)",
+    "after_close_send_total: wf_cfg (lengths >= 0), crypto_fits (max_datagram_size <= 1500, the CryptoPair's scratch buffers), close event with "
+    "0 <= code, frame type < 2^62: Example close_send_hyps; holds for the tree with docs/C05-fix-10.patch (26d6ec4), refuted before (after_close_refuted)",
 ]
 
 EXN = {"AssertionError": 1, "IndexError": 2, "KeyError": 3, "UnicodeDecodeError": 4, "ValueError": 5, "TypeError": 6,
